@@ -5,37 +5,6 @@ from torchsde._brownian.brownian_interval import _LRUDict, _EmptyDict
 from torchsde._core.misc import is_strictly_increasing
 
 
-def _lru_state(max_size: int, keys: List[int]) -> _LRUDict:
-    d = _LRUDict(max_size)
-    # construct an arbitrary valid state directly (representation invariant: _keys is a duplicate-free permutation of
-    # the stored keys and len <= max_size), skipping the history that led to it
-    for k in keys:
-        dict.__setitem__(d, k, k)
-    d._keys = list(keys)
-    return d
-
-
-def lru_one_step(max_size: int, keys: List[int], new_key: int) -> Tuple[int, bool, bool, bool]:
-    """
-    pre: 1 <= max_size <= 3
-    pre: len(keys) <= max_size
-    pre: len(set(keys)) == len(keys)
-    post: _[0] <= max_size
-    post: _[1]
-    post: _[2]
-    post: _[3]
-    """
-    d = _lru_state(max_size, keys)
-    d[new_key] = 7
-    perm = sorted(d._keys) == sorted(d.keys()) and len(set(d._keys)) == len(d._keys)
-    newest = d._keys[-1] == new_key and d[new_key] == 7
-    # eviction only when full and the key is new, and then the least recently used one goes
-    expected = [k for k in keys if k != new_key]
-    if new_key not in keys and len(keys) >= max_size:
-        expected = expected[1:]
-    return len(d), perm, newest, d._keys[:-1] == expected
-
-
 def empty_dict_stores_nothing(k: int, v: int) -> bool:
     """
     post: _
